@@ -1430,7 +1430,7 @@ def check_distributions(ctx, U):
 # ============================================================================================
 PURE_EXTERNAL = re.compile(r'^(std::(forward|move|addressof|min|max|abs|fabs|numeric_limits<.*>::\w+)|'
                            r'(std::|::)?(pow|sqrt|round|floor|ceil|trunc|rint|nearbyint|exp|exp2|log|log2|fabs|fmin|fmax|copysign)[fl]?|'
-                           r'_mm_\w+|__builtin_(ia32_\w+|\w*(pow|sqrt|round|floor|ceil|fabs|fmin|fmax|copysign)[fl]?))$')
+                           r'__assert_fail|__assert|__assert_rtn|abort|_mm_\w+|__builtin_(unreachable|trap|expect|assume|ia32_\w+|\w*(pow|sqrt|round|floor|ceil|fabs|fmin|fmax|copysign)[fl]?))$')
 PACKING_FNS = re.compile(r'^rkcommon::math::(linear_to_srgb|linear_to_srgba|linear_to_srgba8|cvt_uint32)$')
 
 
